@@ -135,7 +135,7 @@ def _split_top(s):
 
 
 class Weaver:
-    def __init__(self, repo, spec_path, config_override=None):
+    def __init__(self, repo, spec_path, config_override=None, auto_request=None):
         self.repo = repo
         self.spec_path = spec_path
         self.cur_path = spec_path
@@ -151,6 +151,7 @@ class Weaver:
         self.ctx_type = ""     # "Stack" for qualified names
         self.dropped = []      # what extraction dropped (for evidence)
         self.rewrite_log = []
+        self.auto_request = set(auto_request or ())   # method names the verifier reported missing: extract them automatically
 
     # ---------------------------------------------------------------- util
     def emit_spec(self, text, lineno, fn="", label="", tags=()):
@@ -167,8 +168,33 @@ class Weaver:
     # ---------------------------------------------------------------- main
     def run(self):
         self.addtags = ()
+        self.declared = {}      # normalised impl header -> set of fn names named by directives anywhere in the unit
+        self.auto_emitted = set()
+        self.block_fns = []     # (name, tags, body text) of fns extracted in the current impl block
+        self.auto_helpers = []
+        self._prescan(self.spec_path)
         self.process(self.spec_path)
         return self
+
+    def _prescan(self, path):
+        try:
+            lines = open(path, encoding="utf-8").read().split("\n")
+        except OSError:
+            return
+        cur = None
+        for l in lines:
+            t = l.strip()
+            if t.startswith("//@ include "):
+                self._prescan(os.path.join(os.path.dirname(self.spec_path), t.split()[2]))
+            elif t.startswith("//@ impl "):
+                hdr = t[len("//@ impl "):].split(None, 1)[1]
+                if " =as=> " in hdr:
+                    hdr = hdr.split(" =as=> ")[0]
+                cur = _impl_self_type(rl.norm(hdr)).split(" as ")[0]
+            elif t.startswith("//@ endimpl") or t.startswith("//@ free"):
+                cur = None
+            elif t.startswith("//@ fn ") and cur is not None:
+                self.declared.setdefault(cur, set()).add(t.split()[2])
 
     def process(self, path):
         prev_lines, prev_path = getattr(self, "spec_lines", None), self.cur_path
@@ -236,9 +262,11 @@ class Weaver:
                     hdr_text = as_header.strip() + " {"
                 self.emit_src(hdr_text, alias, srcf.toks[found[0].head].line)
             elif cmd == "endimpl":
+                self.emit_auto_helpers(i + 1)
                 self.emit_spec("}", i + 1)
                 self.ctx_impl = None
                 self.ctx_type = ""
+                self.block_fns = []
             elif cmd == "free":
                 fa = arg.split()
                 self.ctx_alias, self.ctx_impl, self.ctx_type = fa[0], None, ""
@@ -332,6 +360,41 @@ class Weaver:
         it = pool[0]
         text = _widen_vis(rl.text_of(srcf.toks, it.head, it.last))
         self.emit_src(text, alias, srcf.toks[it.head].line)
+
+    # ---------------------------------------------------------------- helpers the source introduced but the unit does not name
+    def emit_auto_helpers(self, lineno):
+        """A refactoring may move code into a new private method.  Any method of the same source impl block that an extracted
+        body calls and that no directive names is extracted automatically; an expression-bodied one gets its own body as its
+        postcondition (that is inlining), any other one is verified with no postcondition (callers learn nothing from it)."""
+        if self.ctx_impl is None:
+            return
+        srcf = self.src(self.ctx_alias)
+        tname = self.ctx_type.split(" as ")[0]
+        declared = self.declared.get(tname, set())
+        avail = {it.name: it for it in self.ctx_impl.children if it.kind == "fn" and not _is_cfg_test(it) and it.body_open >= 0}
+        work = list(self.block_fns)
+        seen = set()
+        while work:
+            (caller, tags, body) = work.pop()
+            for m in re.finditer(r"(?:\.\s*|Self\s*::\s*)([A-Za-z_][A-Za-z0-9_]*)\s*\(", body):
+                h = m.group(1)
+                if h not in self.auto_request or h in declared or h not in avail or (tname, h) in self.auto_emitted or h in seen:
+                    continue
+                seen.add(h)
+                it = avail[h]
+                btxt = strip_comments_keep_lines(rl.text_of(srcf.toks, it.body_open, it.last))
+                inner = btxt.strip()[1:-1].strip()
+                sig = rl.text_of(srcf.toks, it.head, it.body_open - 1)
+                returns = "->" in sig
+                block = []
+                arg = h + " tags=" + ",".join(tags or ("",))
+                if returns and ";" not in inner and not re.search(r"\b(let|loop|while|for|return)\b", inner):
+                    arg += " ret=r"
+                    block.append((lineno, "        ensures r == (%s)   // #auto-%s (auto-extracted helper: its own body is its contract)" % (" ".join(inner.split()), h)))
+                self.auto_emitted.add((tname, h))
+                self.auto_helpers.append("%s::%s" % (tname, h))
+                self.do_fn(arg.replace("tags= ", ""), block, lineno)
+                work.append((h, tags, btxt))
 
     # ---------------------------------------------------------------- fns
     def do_fn(self, arg, block, lineno):
@@ -450,6 +513,7 @@ class Weaver:
             declared |= set(r.split("+"))
             if c is not None and got != c:
                 raise AnchorLoss("fn %s: rewrite %s matched %d times, expected %d" % (qname, r, got, c))
+        self.block_fns.append((name, tags, body))
         for r, c in counts.items():
             if c and r not in declared:
                 raise AnchorLoss("fn %s: rewrite %s matched %d times but is not declared in the unit (rw=%s:%d)" % (qname, r, c, r, c))
